@@ -257,6 +257,7 @@ def run(repo, R):
     okg = True
     for m, nval in ((0, 2), (1, 1), (2, 3)):
         E = GenElem(g, m, nval)
+        E.repo_ref = repo
         E.run()
         body = E.returns[0][1][2]
         if sp.simplify(body.e).has(CSYM):
